@@ -684,7 +684,22 @@ impl<'p> Enc<'p> {
     fn maybe_local(&mut self) -> bool {
         if self.allow_local && self.pick(4, "local") == 3 {
             self.out.push(121);
-            let h = self.local_hash;
+            // the hash is opaque: any eight bytes, in particular bytes that look like tags
+            let h: [u8; 8] = match self.pick(8, "local-hash") {
+                0 => self.local_hash,
+                1 => [121, 0xA5, 0xA5, 0xA5, 0xA5, 0xA5, 0xA5, 0xA5],
+                2 => [131, 88, 119, 1, 97, 106, 0, 255],
+                3 => [0; 8],
+                4 => [0xFF; 8],
+                5 => [121, 121, 88, 89, 90, 131, 80, 68],
+                _ => {
+                    let mut h = [0u8; 8];
+                    for b in h.iter_mut() {
+                        *b = self.pick(256, "local-hash-byte") as u8;
+                    }
+                    h
+                }
+            };
             self.out.extend_from_slice(&h);
             self.next_atom_in_full = true;
             true
